@@ -20,7 +20,7 @@ PROPERTY = "C18"
 KEYS = ["linear:F_bias_kw", "linear:nn", "matmul:param", "gelu:F", "silu:F", "softmax:nn", "dropout:F_p0", "layer_norm:F_affine",
         "layer_norm:nn", "conv1d:F", "sdpa:causal_kw", "sdpa:mask_pos", "ulinear:uu", "usdpa:plain", "tanh", "relu",
         "mul_scalar", "neg", "reshape", "view_t", "rotate_half", "stack_mean", "masked", "index_rows", "with_zeros",
-        "gate_softmax", "add_scalar", "add_param", "iadd_param", "view_inplace", "cmp_two", "cat_kw", "hand_scaled", "add_ones", "gather_argmax"]
+        "gate_softmax", "add_scalar", "add_param", "iadd_param", "view_inplace", "cmp_two", "cat_kw", "hand_scaled", "add_ones", "gather_argmax", "inf_mask_softmax"]
 SMALL = ["linear:nn", "gelu:F", "softmax:nn", "rotate_half", "stack_mean", "masked", "index_rows", "with_zeros", "reshape",
          "add_param", "sdpa:causal_kw", "neg"]
 RULE = (
@@ -126,7 +126,16 @@ def _eq(a: float, b: float, scale: float = 0.0) -> bool:
     buffers, which shows up in abs_min / abs_mean of small values as an ABSOLUTE error of ~1e-7*scale"""
     if isinstance(a, float) and isinstance(b, float) and math.isnan(a) and math.isnan(b):
         return True
+    if not (math.isfinite(a) and math.isfinite(b)):
+        return a == b  # +-inf statistics of a tensor with non-finite entries must be reported as such
     return abs(a - b) <= 1e-5 * max(abs(a), abs(b)) + 1e-7 + 2e-6 * scale
+
+
+def _scale(t: Any) -> float:
+    """max |x| over the FINITE entries (the absolute-error allowance of `_eq`)"""
+    a = t.detach().abs().flatten()
+    a = a[a.isfinite()]
+    return float(a.max()) if a.numel() else 0.0
 
 
 def run_case(case: Dict[str, Any]) -> Dict[str, Any]:
@@ -305,7 +314,7 @@ def run_case(case: Dict[str, Any]) -> Dict[str, Any]:
             continue
         nfloat += 1
         st = stats(v)
-        bad = [k for k in st if not _eq(float(getattr(mt.fwd, k)), float(st[k]), float(st["abs_max"]) if k != "numel" else 0.0)]
+        bad = [k for k in st if not _eq(float(getattr(mt.fwd, k)), float(st[k]), _scale(v) if k != "numel" else 0.0)]
         if bad:
             viol.append({"key": ident + f"|forward_metric_wrong|{'+'.join(bad)}",
                          "msg": f"node {node.name}: recorded {mt.fwd} vs recomputed {st}\n" + src})
@@ -317,7 +326,7 @@ def run_case(case: Dict[str, Any]) -> Dict[str, Any]:
             viol.append({"key": ident + "|backward_metric_missing", "msg": f"node {node.name}\n" + src})
         else:
             sg = stats(g)
-            bad = [k for k in sg if not _eq(float(getattr(mt.bwd, k)), float(sg[k]), float(sg["abs_max"]) if k != "numel" else 0.0)]
+            bad = [k for k in sg if not _eq(float(getattr(mt.bwd, k)), float(sg[k]), _scale(g) if k != "numel" else 0.0)]
             if bad:
                 viol.append({"key": ident + f"|backward_metric_wrong|{'+'.join(bad)}",
                              "msg": f"node {node.name}: recorded {mt.bwd} vs total gradient {sg}\n" + src})
